@@ -46,6 +46,36 @@ func runFixRules(c *Ctx, spec *PropSpec) {
 		c12RejectedListenerUpdateHasNoEffect(c)
 	case "C19":
 		c19StoredClusterManagerKeepsScalars(c)
+	case "C14":
+		c14LocalReplyCancelsPendingRerun(c)
+	case "C10":
+		c10DecodeErrorDrivesTheStream(c)
+		c10NoStreamCallbackUnderStreamTableLock(c)
+	case "C03":
+		c03SentFlagImpliesDeadline(c)
+		c03RetriesDoNotConsumePhaseRounds(c)
+	case "C16":
+		c16TimeoutAttributedToItsCheck(c)
+	case "C13":
+		c13ProviderIndexPerContext(c)
+	case "C20":
+		c20RawSectionsRedacted(c)
+	case "C01":
+		c01EmptyQueryIsAQuery(c)
+	case "C02":
+		c02LeftoverUpstreamBytesRetireConnection(c)
+	case "C11":
+		c11NoZeroPrefixedHandOverBuffer(c)
+		c11HostlessListenerInheritsWildcard(c)
+	case "C18":
+		c18EmptyHeaderFragmentAccepted(c)
+		c18PeerHeaderTableSizeApplied(c)
+	case "C08":
+		c08StreamErrorConsumesItsFrame(c)
+	case "C17":
+		c17ConfiguredRetriesUsedAsIs(c)
+		c17EveryRuleFinalizesWithTheBase(c)
+		c17RewriteAgreesWithMatchOnCase(c)
 	}
 }
 
@@ -319,5 +349,1238 @@ func c19StoredClusterManagerKeepsScalars(c *Ctx) {
 		c.Check(rule, funcKey(fn)+":keeps-"+f.Name(), fn.Pos(), kept[f.Name()],
 			"cluster_manager."+f.Name()+" is carried over into the stored config",
 			"SetMosnConfig rebuilds the stored cluster_manager section without "+f.Name()+": the field is missing from every dump and persisted file, a restart from that file runs with its default")
+	}
+}
+
+// ---------------------------------------------------------------------------------------------------------------------
+// C14.R9 (S20): once processError turns a local reply into the reply phase (it consumes directResponse), a re-run of
+// the receiver filters that another filter of the same phase asked for is cancelled; otherwise the next phase check takes
+// the re-match instead of the reply and the denied request goes on to an upstream host.
+func c14LocalReplyCancelsPendingRerun(c *Ctx) {
+	const rule = "C14.R9"
+	c.Rule(rule, "a local reply cancels a pending re-run of the receiver filters", 1)
+	fn := c.M("pkg/proxy", "downStream", "processError")
+	if fn == nil {
+		c.Unresolved(rule, "downStream.processError")
+		return
+	}
+	initPhase, ok := pkgConstOf(fn, "pkg/types", "InitPhase")
+	if !ok {
+		c.Unresolved(rule, "types.InitPhase")
+		return
+	}
+	n := 0
+	for _, st := range storesToField(fn, ".downStream", "directResponse", false) {
+		if b, ok := constBool(st.Val); !ok || b {
+			continue
+		}
+		n++
+		isClear := func(in ssa.Instruction) bool {
+			s2, ok := in.(*ssa.Store)
+			if !ok {
+				return false
+			}
+			_, f, _, okf := fieldAddrInfo(s2.Addr)
+			k, isK := constInt(s2.Val)
+			return okf && f == "receiverFiltersAgainPhase" && isK && k == initPhase
+		}
+		leak := existsPath(fn, st, isReturn, isClear)
+		// a clear that precedes the consumption on every path is as good
+		if leak != nil {
+			for _, in := range instrsWhere(fn, isClear) {
+				if instrDominates(in, st) {
+					leak = nil
+				}
+			}
+		}
+		c.Check(rule, funcKey(fn)+":reply-cancels-rerun", st.Pos(), leak == nil,
+			"every path that turns the local reply into the reply phase resets receiverFiltersAgainPhase",
+			"processError consumes the local reply (directResponse) and can return without resetting receiverFiltersAgainPhase: a route re-match or host re-choose requested by a later filter of the same phase is then taken at the next phase check instead of the reply, and the request that a filter answered locally is forwarded upstream")
+	}
+	if n == 0 {
+		c.Fail(rule, funcKey(fn)+":reply-cancels-rerun", fn.Pos(), "no consumption of directResponse found in processError")
+	}
+}
+
+// ---------------------------------------------------------------------------------------------------------------------
+// C10.DECODE (S32): a stream counted by newActiveStream is ended by the phase loop (receive -> ... -> cleanStream, which
+// gives the gauges back). Every StreamReceiveListener entry that can be the only call a stream ever gets (OnReceive,
+// OnDecodeError) must drive that loop itself or schedule a task that does.
+func c10DecodeErrorDrivesTheStream(c *Ctx) {
+	const rule = "C10.DECODE"
+	c.Rule(rule, "every receive entry of a counted downstream stream drives the phase loop that ends (and un-counts) it", 2)
+	pkg := "pkg/proxy"
+	recv := c.M(pkg, "downStream", "receive")
+	if recv == nil {
+		c.Unresolved(rule, "downStream.receive")
+		return
+	}
+	for _, name := range []string{"OnReceive", "OnDecodeError"} {
+		fn := c.M(pkg, "downStream", name)
+		if fn == nil {
+			c.Unresolved(rule, "downStream."+name)
+			continue
+		}
+		reach := staticReach([]*ssa.Function{fn}, pkg)
+		// closures created in fn (the scheduled task) count
+		for _, an := range fn.AnonFuncs {
+			for f := range staticReach([]*ssa.Function{an}, pkg) {
+				reach[f] = true
+			}
+		}
+		c.Check(rule, funcKey(fn)+":drives-phase-loop", fn.Pos(), reach[recv],
+			name+" reaches downStream.receive",
+			name+" no longer runs the phases of the stream (downStream.receive is not reachable from it): for a stream whose only event is "+name+" nothing sends the reply or calls cleanStream, so downstream_rq_active and the active stream list keep the stream for ever")
+	}
+}
+
+// ---------------------------------------------------------------------------------------------------------------------
+// C03.R13 (S42): the request-sent flag implies that the global deadline is armed: whoever sets upstreamRequestSent outside
+// onUpstreamRequestSent (which arms the timers and sets the flag) does so only on paths on which the flag was already
+// observed true or onUpstreamRequestSent has been called.
+func c03SentFlagImpliesDeadline(c *Ctx) {
+	const rule = "C03.R13"
+	c.Rule(rule, "the request-sent flag is only set together with the global deadline", 1)
+	pkg := "pkg/proxy"
+	sent := c.M(pkg, "downStream", "onUpstreamRequestSent")
+	if sent == nil {
+		c.Unresolved(rule, "downStream.onUpstreamRequestSent")
+		return
+	}
+	arms := len(storesToField(sent, ".downStream", "responseTimer", false)) > 0
+	sets := false
+	for _, st := range storesToField(sent, ".downStream", "upstreamRequestSent", false) {
+		if b, ok := constBool(st.Val); ok && b {
+			sets = true
+		}
+	}
+	c.Check(rule, funcKey(sent)+":arms-and-sets", sent.Pos(), arms && sets, "onUpstreamRequestSent arms the global timer and sets the flag", "onUpstreamRequestSent no longer both arms the global timer and sets upstreamRequestSent")
+	ord := ordCounter{}
+	for _, fn := range c.PkgFuncs(pkg) {
+		if fn == sent {
+			continue
+		}
+		for _, st := range storesToField(fn, ".downStream", "upstreamRequestSent", true) {
+			if b, ok := constBool(st.Val); !ok || !b {
+				continue
+			}
+			f := st.Parent()
+			isArm := func(in ssa.Instruction) bool {
+				ci, ok := in.(ssa.CallInstruction)
+				return ok && ci.Common().StaticCallee() == sent
+			}
+			edgeOK := func(from, to *ssa.BasicBlock) bool {
+				// the true edge of `if s.upstreamRequestSent` : already sent, the deadline is running
+				if ifi, ok := from.Instrs[len(from.Instrs)-1].(*ssa.If); ok && len(from.Succs) == 2 && from.Succs[0] != from.Succs[1] {
+					for _, g := range normGuard(Guard{Cond: ifi.Cond, True: from.Succs[0] == to, If: ifi}) {
+						if _, fld, _, okf := loadedField(g.Cond); okf && fld == "upstreamRequestSent" && g.True {
+							return false
+						}
+					}
+				}
+				return true
+			}
+			bad := existsPathEdges(f, nil, func(in ssa.Instruction) bool { return in == ssa.Instruction(st) }, isArm, edgeOK)
+			c.Check(rule, ord.next(f, "sent-flag-with-deadline"), st.Pos(), bad == nil,
+				"the flag is set only after onUpstreamRequestSent ran or the flag was already true",
+				f.Name()+" marks the request as sent on a path on which neither onUpstreamRequestSent was called nor the flag was already set: the global timeout is never armed for that request (a request with a body whose first try failed in the connection pool), so a silent upstream keeps it open without bound")
+		}
+	}
+}
+
+// C03.R14 (S43): the phase loop of OnReceive has a fixed number of rounds (a guard against endless re-matching). A round
+// that ends in the Retry phase must not advance the round counter: retries are bounded by the retry policy, and a request
+// that is still being retried when the rounds are used up is abandoned with no reply and no cleanup.
+func c03RetriesDoNotConsumePhaseRounds(c *Ctx) {
+	const rule = "C03.R14"
+	c.Rule(rule, "a retry does not use up a round of the bounded phase loop", 1)
+	pkg := "pkg/proxy"
+	on := c.M(pkg, "downStream", "OnReceive")
+	if on == nil {
+		c.Unresolved(rule, "downStream.OnReceive")
+		return
+	}
+	retryPhase, ok := pkgConstOf(on, "pkg/types", "Retry")
+	if !ok {
+		c.Unresolved(rule, "types.Retry")
+		return
+	}
+	n := 0
+	for _, fn := range append([]*ssa.Function{on}, on.AnonFuncs...) {
+		for header, body := range naturalLoops(fn) {
+			ifi, ok := header.Instrs[len(header.Instrs)-1].(*ssa.If)
+			if !ok {
+				continue
+			}
+			bin, ok := ifi.Cond.(*ssa.BinOp)
+			if !ok || bin.Op != token.LSS {
+				continue
+			}
+			ctr, ok := bin.X.(*ssa.Phi)
+			if _, isK := constInt(bin.Y); !ok || !isK || ctr.Block() != header {
+				continue
+			}
+			var recvCall *ssa.Call
+			for b := range body {
+				for _, in := range b.Instrs {
+					if call, ok := in.(*ssa.Call); ok && methodName(call.Common()) == "receive" {
+						recvCall = call
+					}
+				}
+			}
+			if recvCall == nil {
+				continue
+			}
+			n++
+			// the values the counter takes on the back edges, as increments relative to the header phi, restricted to
+			// edges taken when the phase is Retry
+			isRetryGuard := func(gs []Guard) (yes, no bool) {
+				for _, g := range gs {
+					b, ok := g.Cond.(*ssa.BinOp)
+					if !ok || (b.X != ssa.Value(recvCall) && b.Y != ssa.Value(recvCall)) {
+						continue
+					}
+					k, isK := constInt(b.Y)
+					if !isK {
+						k, isK = constInt(b.X)
+					}
+					if !isK {
+						continue
+					}
+					eq := (b.Op == token.EQL) == g.True
+					if k == retryPhase && eq {
+						yes = true
+					}
+					if (k == retryPhase && !eq) || (k != retryPhase && eq) {
+						no = true
+					}
+				}
+				return
+			}
+			worst := int64(-1 << 30)
+			undec := ""
+			var walk func(v ssa.Value, acc int64, inRetry bool, depth int)
+			walk = func(v ssa.Value, acc int64, inRetry bool, depth int) {
+				if depth > 10 {
+					undec = "counter update too deep"
+					return
+				}
+				switch x := v.(type) {
+				case *ssa.Phi:
+					if x == ctr {
+						if inRetry && acc > worst {
+							worst = acc
+						}
+						return
+					}
+					for i, e := range x.Edges {
+						yes, no := isRetryGuard(edgeGuards(x.Block().Preds[i], x.Block()))
+						if no {
+							continue
+						}
+						walk(e, acc, inRetry || yes, depth+1)
+					}
+				case *ssa.BinOp:
+					if k, isK := constInt(x.Y); isK && (x.Op == token.ADD || x.Op == token.SUB) {
+						if x.Op == token.SUB {
+							k = -k
+						}
+						yes, no := isRetryGuard(guardsAt(x.Block()))
+						if no {
+							return
+						}
+						walk(x.X, acc+k, inRetry || yes, depth+1)
+						return
+					}
+					undec = "counter updated by " + x.String()
+				default:
+					undec = "counter updated from " + v.String()
+				}
+			}
+			for i, e := range ctr.Edges {
+				if body[header.Preds[i]] {
+					yes, no := isRetryGuard(edgeGuards(header.Preds[i], header))
+					if !no {
+						walk(e, 0, yes, 0)
+					}
+				}
+			}
+			key := funcKey(on) + ":retry-round-not-counted"
+			switch {
+			case undec != "":
+				c.Fail(rule, key, nearestPos(ifi), "undecided: "+undec)
+			case worst == -1<<30:
+				c.Fail(rule, key, nearestPos(ifi), "no back edge of the phase loop is taken in the Retry phase")
+			default:
+				c.Check(rule, key, nearestPos(ifi), worst <= 0,
+					"a round that ends in the Retry phase leaves the round counter where it was",
+					fmt.Sprintf("a round of the phase loop that ends in the Retry phase advances the round counter by %d: with a retry policy that allows as many retries as the loop has rounds the loop ends while the request is still being retried - OnReceive returns with no reply sent and the stream not cleaned", worst))
+			}
+		}
+	}
+	if n == 0 {
+		c.Fail(rule, funcKey(on)+":retry-round-not-counted", on.Pos(), "no constant-bounded loop around downStream.receive found in OnReceive")
+	}
+}
+
+// ---------------------------------------------------------------------------------------------------------------------
+// C17.R15 (S35): the retry budget is the configured num_retries whenever one is configured: the store of NumRetries()
+// into retiesRemaining may only be conditional on NumRetries() being non-zero, not on how it compares with the default.
+func c17ConfiguredRetriesUsedAsIs(c *Ctx) {
+	const rule = "C17.R15"
+	c.Rule(rule, "a configured num_retries is used as it is (the built-in default only replaces an unset value)", 1)
+	fn := c.F("pkg/proxy", "newRetryState")
+	if fn == nil {
+		c.Unresolved(rule, "proxy.newRetryState")
+		return
+	}
+	isNum := func(v ssa.Value) bool {
+		call, ok := v.(*ssa.Call)
+		return ok && methodName(call.Common()) == "NumRetries"
+	}
+	n := 0
+	for _, st := range storesToField(fn, "retryState", "retiesRemaining", false) {
+		if !isNum(st.Val) {
+			continue
+		}
+		n++
+		bad := ""
+		for _, g := range guardsAt(st.Block()) {
+			b, ok := g.Cond.(*ssa.BinOp)
+			if !ok || (!isNum(b.X) && !isNum(b.Y)) {
+				continue
+			}
+			other := b.Y
+			if isNum(b.Y) {
+				other = b.X
+			}
+			if k, isK := constInt(other); !isK || k != 0 {
+				bad = "compared with " + other.String()
+			}
+		}
+		c.Check(rule, funcKey(fn)+":configured-budget-used", st.Pos(), bad == "",
+			"NumRetries() is stored whenever it is non-zero",
+			"the configured num_retries is only used when it is "+bad+": a configured budget below the built-in default is ignored and the request is tried more often than one plus the configured number of retries")
+	}
+	if n == 0 {
+		c.Fail(rule, funcKey(fn)+":configured-budget-used", fn.Pos(), "no store of NumRetries() into retiesRemaining found")
+	}
+}
+
+// embedsRuleBase: struct type t embeds (a pointer to) RouteRuleImplBase, directly or through embedded structs.
+func embedsRuleBase(t types.Type, depth int) bool {
+	if depth > 4 {
+		return false
+	}
+	st := derefStruct(t)
+	if st == nil {
+		return false
+	}
+	for i := 0; i < st.NumFields(); i++ {
+		f := st.Field(i)
+		if !f.Embedded() {
+			continue
+		}
+		if strings.HasSuffix(typeName(f.Type()), "RouteRuleImplBase") || embedsRuleBase(f.Type(), depth+1) {
+			return true
+		}
+	}
+	return false
+}
+
+// C17.R16 (S36): every route rule type that declares its own FinalizeRequestHeaders applies the configured header
+// actions of the base rule (route, virtual host and router level additions/removals, host rewrite).
+func c17EveryRuleFinalizesWithTheBase(c *Ctx) {
+	const rule = "C17.R16"
+	c.Rule(rule, "every route rule type's FinalizeRequestHeaders applies the base rule's header actions", 4)
+	pkg := "pkg/router"
+	base := c.M(pkg, "RouteRuleImplBase", "finalizeRequestHeaders")
+	if base == nil {
+		c.Unresolved(rule, "RouteRuleImplBase.finalizeRequestHeaders")
+		return
+	}
+	for _, fn := range c.PkgFuncs(pkg) {
+		if fn.Name() != "FinalizeRequestHeaders" || fn.Signature.Recv() == nil || fn.Synthetic != "" {
+			continue
+		}
+		rt := fn.Signature.Recv().Type()
+		if strings.HasSuffix(typeName(rt), "RouteRuleImplBase") || !embedsRuleBase(rt, 0) {
+			continue
+		}
+		reach := staticReach([]*ssa.Function{fn}, pkg)
+		c.Check(rule, funcKey(fn)+":applies-base-actions", fn.Pos(), reach[base],
+			"reaches RouteRuleImplBase.finalizeRequestHeaders",
+			"this rule type overrides FinalizeRequestHeaders without applying the base rule's actions: a route of this type ignores request_headers_to_add / request_headers_to_remove at route, virtual-host and router level and host_rewrite")
+	}
+}
+
+// C17.R17 (S37): a rule type whose Match compares the request path case-insensitively (strings.EqualFold) must hand
+// finalizePathHeader, whose prefix test is case-sensitive, the request's own spelling of the matched path; the configured
+// spelling alone skips the rewrite for every request that matched with a different case.
+func c17RewriteAgreesWithMatchOnCase(c *Ctx) {
+	const rule = "C17.R17"
+	c.Rule(rule, "a case-insensitive path match hands the rewrite the request's own spelling of the matched path", 1)
+	pkg := "pkg/router"
+	n := 0
+	for _, fn := range c.PkgFuncs(pkg) {
+		if fn.Name() != "Match" || fn.Signature.Recv() == nil || fn.Synthetic != "" || !embedsRuleBase(fn.Signature.Recv().Type(), 0) {
+			continue
+		}
+		if len(callsIn(fn, false, func(cc *ssa.CallCommon) bool { return calleeName(cc) == "strings.EqualFold" })) == 0 {
+			continue
+		}
+		fin := c.methodOf(fn.Signature.Recv().Type(), "FinalizeRequestHeaders")
+		if fin == nil || fin.Synthetic != "" {
+			continue
+		}
+		for _, cs := range callsIn(fin, false, calledAs("finalizePathHeader")) {
+			n++
+			args := argsOf(cs.Instr.Common())
+			arg := args[len(args)-1]
+			fromRequest := false
+			var walk func(v ssa.Value, d int)
+			walk = func(v ssa.Value, d int) {
+				if d > 6 {
+					return
+				}
+				switch x := v.(type) {
+				case *ssa.Phi:
+					for _, e := range x.Edges {
+						walk(e, d+1)
+					}
+				case *ssa.Extract:
+					if call, ok := x.Tuple.(*ssa.Call); ok && strings.HasSuffix(calleeName(call.Common()), "variable.GetString") {
+						fromRequest = true
+					}
+				case *ssa.Call:
+					for _, a := range x.Common().Args {
+						walk(a, d+1)
+					}
+				case *ssa.Slice:
+					walk(x.X, d+1)
+				}
+			}
+			walk(arg, 0)
+			c.Check(rule, funcKey(fin)+":rewrite-uses-request-spelling", cs.Instr.Pos(), fromRequest,
+				"the matched path given to the rewrite can be the request's own spelling",
+				"Match of this rule compares the path with strings.EqualFold but FinalizeRequestHeaders always gives the rewrite the configured spelling, which finalizePathHeader looks for with a case-sensitive prefix test: a request that matched with a different case is forwarded without the configured prefix_rewrite")
+		}
+	}
+	if n == 0 {
+		c.Fail(rule, pkg+":rewrite-uses-request-spelling", token.NoPos, "no case-insensitive path rule with a finalizePathHeader call found")
+	}
+}
+
+// pkgStringConstOf: the value of string constant `name` of an imported package.
+func pkgStringConstOf(fn *ssa.Function, pkgSuffix, name string) (string, bool) {
+	if fn.Pkg == nil {
+		return "", false
+	}
+	for _, imp := range fn.Pkg.Pkg.Imports() {
+		if strings.HasSuffix(imp.Path(), pkgSuffix) {
+			if k, ok := imp.Scope().Lookup(name).(*types.Const); ok && k.Val().Kind() == constant.String {
+				return constant.StringVal(k.Val()), true
+			}
+		}
+	}
+	return "", false
+}
+
+// mayHold: some path from a Lock/RLock of mutex field `mutex` reaches in without passing an Unlock/RUnlock of it.
+func mayHold(in ssa.Instruction, mutex string) ssa.Instruction {
+	fn := in.Parent()
+	isOp := func(x ssa.Instruction, names ...string) bool {
+		ci, ok := x.(*ssa.Call)
+		if !ok {
+			return false
+		}
+		cc := ci.Common()
+		if len(cc.Args) == 0 {
+			return false
+		}
+		hit := false
+		for _, n := range names {
+			if methodName(cc) == n {
+				hit = true
+			}
+		}
+		if !hit {
+			return false
+		}
+		_, f, _, ok := fieldAddrInfo(cc.Args[0])
+		return ok && f == mutex
+	}
+	for _, b := range fn.Blocks {
+		for _, x := range b.Instrs {
+			if !isOp(x, "Lock", "RLock") {
+				continue
+			}
+			if existsPath(fn, x, func(y ssa.Instruction) bool { return y == in }, func(y ssa.Instruction) bool { return isOp(y, "Unlock", "RUnlock") }) != nil {
+				return x
+			}
+		}
+	}
+	return nil
+}
+
+// ---------------------------------------------------------------------------------------------------------------------
+// C16.R5 (S1): one check, one result. The timeout timer of a check can fire while the response of the same check is being
+// delivered; the failure recorded for a timeout event must therefore be attributed to a check: either the handling of the
+// event depends on a value carried by the event (the check ID), or the response path drains the pending timeout.
+func c16TimeoutAttributedToItsCheck(c *Ctx) {
+	const rule = "C16.R5"
+	c.Rule(rule, "a health-check timeout event is attributed to its check before it counts as a failure", 1)
+	pkg := "pkg/upstream/healthcheck"
+	fn := c.M(pkg, "sessionChecker", "Start")
+	if fn == nil {
+		c.Unresolved(rule, "sessionChecker.Start")
+		return
+	}
+	failNet, ok := pkgConstOf(fn, "pkg/types", "FailureNetwork")
+	_ = failNet
+	_ = ok
+	fromEvent := func(v ssa.Value) bool {
+		seen := map[ssa.Value]bool{}
+		var walk func(v ssa.Value, d int) bool
+		walk = func(v ssa.Value, d int) bool {
+			if d > 8 || seen[v] {
+				return false
+			}
+			seen[v] = true
+			switch x := v.(type) {
+			case *ssa.Extract:
+				if _, isSel := x.Tuple.(*ssa.Select); isSel && x.Index >= 2 {
+					return true
+				}
+			case *ssa.BinOp:
+				return walk(x.X, d+1) || walk(x.Y, d+1)
+			case *ssa.UnOp:
+				return walk(x.X, d+1)
+			case *ssa.Field:
+				return walk(x.X, d+1)
+			case *ssa.Phi:
+				for _, e := range x.Edges {
+					if walk(e, d+1) {
+						return true
+					}
+				}
+			}
+			return false
+		}
+		return walk(v, 0)
+	}
+	// the failure that stands for "no answer in time": HandleFailure called with a constant reason in a block selected by a
+	// receive from the timeout channel
+	n := 0
+	for _, cs := range callsIn(fn, false, calledAs("HandleFailure")) {
+		// which select case are we in: the receive whose channel is the `timeout` field
+		inTimeoutCase := false
+		for _, g := range guardsAt(cs.Instr.Block()) {
+			b, ok := g.Cond.(*ssa.BinOp)
+			if !ok || !g.True || b.Op != token.EQL {
+				continue
+			}
+			ex, ok := b.X.(*ssa.Extract)
+			if !ok || ex.Index != 0 {
+				continue
+			}
+			sel, ok := ex.Tuple.(*ssa.Select)
+			k, isK := constInt(b.Y)
+			if !ok || !isK || int(k) >= len(sel.States) {
+				continue
+			}
+			if _, f, _, okf := loadedField(sel.States[k].Chan); okf && f == "timeout" {
+				inTimeoutCase = true
+			}
+		}
+		if !inTimeoutCase {
+			continue
+		}
+		n++
+		attributed := false
+		// a condition computed from what the event carries lies between the receive and the failure
+		for _, b := range fn.Blocks {
+			if ifi, ok := b.Instrs[len(b.Instrs)-1].(*ssa.If); ok && fromEvent(ifi.Cond) {
+				if b == cs.Instr.Block() || reachableFrom(b)[cs.Instr.Block()] {
+					attributed = true
+				}
+			}
+		}
+		// or: the response path drains a pending timeout (a non-blocking receive from the timeout channel elsewhere)
+		for _, in := range instrsWhere(fn, func(in ssa.Instruction) bool { s, ok := in.(*ssa.Select); return ok && !s.Blocking }) {
+			for _, st := range in.(*ssa.Select).States {
+				if _, f, _, okf := loadedField(st.Chan); okf && f == "timeout" {
+					attributed = true
+				}
+			}
+		}
+		c.Check(rule, funcKey(fn)+":timeout-attributed", cs.Instr.Pos(), attributed,
+			"the timeout case records a failure only after looking at what the event carries (the check it belongs to)",
+			"the timeout case of the session checker records a failure for any timeout event: a timeout that fired just before the response of the same check stopped its timer is consumed by the next iteration as a second result, so one check counts twice and a healthy host collects a failure (with unhealthy_threshold 1 it is taken out of service)")
+	}
+	if n == 0 {
+		c.Fail(rule, funcKey(fn)+":timeout-attributed", fn.Pos(), "no HandleFailure call in a receive case of the timeout channel found")
+	}
+}
+
+// ---------------------------------------------------------------------------------------------------------------------
+// C13.R15 (S47): the index a provider is registered under identifies one tls context. Inside the loops over a
+// listener's contexts the index argument of NewProvider must vary with the iteration; a loop-invariant index makes the sds
+// contexts that use the same secrets share one provider, which keeps only the last context's configuration.
+func c13ProviderIndexPerContext(c *Ctx) {
+	const rule = "C13.R15"
+	c.Rule(rule, "each tls context of a listener is registered under its own provider index", 1)
+	fn := c.F("pkg/mtls", "NewTLSServerContextManager")
+	if fn == nil {
+		c.Unresolved(rule, "mtls.NewTLSServerContextManager")
+		return
+	}
+	loops := naturalLoops(fn)
+	n := 0
+	for _, cs := range callsIn(fn, false, calledAs("NewProvider")) {
+		var headers []*ssa.BasicBlock
+		for h, b := range loops {
+			if b[cs.Instr.Block()] {
+				headers = append(headers, h)
+			}
+		}
+		if len(headers) == 0 {
+			continue
+		}
+		n++
+		inBody := func(b *ssa.BasicBlock) bool {
+			for h, body := range loops {
+				for _, hh := range headers {
+					if h == hh && body[b] {
+						return true
+					}
+				}
+			}
+			return false
+		}
+		seen := map[ssa.Value]bool{}
+		var variant func(v ssa.Value, d int) bool
+		variant = func(v ssa.Value, d int) bool {
+			if d > 10 || seen[v] {
+				return false
+			}
+			seen[v] = true
+			in, ok := v.(ssa.Instruction)
+			if !ok || !inBody(in.Block()) {
+				return false
+			}
+			if phi, ok := v.(*ssa.Phi); ok {
+				for _, h := range headers {
+					if phi.Block() == h {
+						return true
+					}
+				}
+			}
+			for _, op := range in.Operands(nil) {
+				if *op != nil && variant(*op, d+1) {
+					return true
+				}
+			}
+			return false
+		}
+		c.Check(rule, funcKey(fn)+":provider-index-per-context", cs.Instr.Pos(), variant(cs.Instr.Common().Args[0], 0),
+			"the provider index depends on the position of the context in the listener",
+			"NewProvider is called in the loop over a listener's tls contexts with an index that is the same for every context: two sds contexts of one listener that name the same secrets are registered as one provider, which keeps only the last context's config - the other context's server names, client-certificate requirement, cipher suites and ALPN are silently lost")
+	}
+	if n == 0 {
+		c.Fail(rule, funcKey(fn)+":provider-index-per-context", fn.Pos(), "no NewProvider call inside a loop found")
+	}
+}
+
+// ---------------------------------------------------------------------------------------------------------------------
+// C20.R6 (S52): a section of raw JSON (v2.ExtendConfig.Config) can embed a TLS config; every value of type
+// []v2.ExtendConfig that reaches the admin surface is produced by a redactor that walks the raw JSON: a function from which
+// a comparison of a key with "private_key" and a store of the placeholder are reachable.
+func c20RawSectionsRedacted(c *Ctx) {
+	const rule = "C20.R6"
+	c.Rule(rule, "raw JSON sections (extend configs) reach the admin surface only through a redactor that walks the JSON", 2)
+	pkg := "pkg/configmanager"
+	// the raw redactors
+	walks := map[*ssa.Function]bool{}
+	for _, f := range c.PkgFuncs(pkg) {
+		key, ph := false, false
+		forEachInstr(f, false, func(_ *ssa.Function, in ssa.Instruction) {
+			for _, op := range in.Operands(nil) {
+				if *op == nil {
+					continue
+				}
+				if s, ok := constStringVal(*op); ok {
+					if strings.EqualFold(s, "private_key") {
+						key = true
+					}
+				}
+			}
+			switch x := in.(type) {
+			case *ssa.MapUpdate:
+				if s, ok := constStringVal(stripIface(x.Value)); ok && s != "" {
+					ph = true
+				}
+			case *ssa.Store:
+				if s, ok := constStringVal(stripIface(x.Val)); ok && s != "" {
+					ph = true
+				}
+			}
+		})
+		if key && ph {
+			walks[f] = true
+		}
+	}
+	isRaw := func(callee *ssa.Function) bool {
+		if callee == nil {
+			return false
+		}
+		for f := range staticReach([]*ssa.Function{callee}, pkg) {
+			if walks[f] {
+				return true
+			}
+		}
+		return false
+	}
+	isExtendSlice := func(t types.Type) bool {
+		sl, ok := t.Underlying().(*types.Slice)
+		return ok && strings.HasSuffix(typeName(sl.Elem()), "v2.ExtendConfig")
+	}
+	n := 0
+	check := func(key string, v ssa.Value, pos token.Pos) {
+		n++
+		call, ok := v.(*ssa.Call)
+		c.Check(rule, key, pos, ok && isRaw(call.Common().StaticCallee()),
+			"produced by a redactor that walks the raw JSON",
+			"a []v2.ExtendConfig reaches the admin dump without passing a redactor that walks its raw JSON: an extend config that embeds a TLS config (the tunnel_agent's tls_context) is dumped with its inline private_key")
+	}
+	if red := c.F(pkg, "getMOSNConfigRedacted"); red != nil {
+		i := 0
+		for _, in := range instrsWhere(red, isReturn) {
+			var leaves []ssa.Value
+			var collect func(v ssa.Value)
+			collect = func(v ssa.Value) {
+				if phi, ok := v.(*ssa.Phi); ok {
+					for _, e := range phi.Edges {
+						collect(e)
+					}
+					return
+				}
+				leaves = append(leaves, v)
+			}
+			collect(in.(*ssa.Return).Results[0])
+			for _, l := range leaves {
+				l = stripIface(l)
+				if isExtendSlice(l.Type()) {
+					i++
+					check(fmt.Sprintf("%s:extend-arm#%d", funcKey(red), i), l, valuePos(l))
+				}
+			}
+		}
+	} else {
+		c.Unresolved(rule, "configmanager.getMOSNConfigRedacted")
+	}
+	if cp := c.F(pkg, "redactedCopy"); cp != nil {
+		sts := 0
+		for _, st := range storesToField(cp, "effectiveConfig", "ExtendConfigs", false) {
+			sts++
+			check(fmt.Sprintf("%s:extend-field#%d", funcKey(cp), sts), st.Val, st.Pos())
+		}
+		if sts == 0 {
+			n++
+			c.Fail(rule, funcKey(cp)+":extend-field", cp.Pos(), "redactedCopy never replaces the ExtendConfigs of the copy: the live slice, raw JSON and all, is what the full dump marshals")
+		}
+	} else {
+		c.Unresolved(rule, "configmanager.redactedCopy")
+	}
+	_ = n
+}
+
+// ---------------------------------------------------------------------------------------------------------------------
+// C01.R13 (S55): an empty query is still a query. The request target's '?' survives: the query variable is set whenever the
+// target has a query component (not only for a non-empty one) and the upstream URL gets its '?' whenever the variable is
+// set (decided on the lookup's error, not on the value being empty).
+func c01EmptyQueryIsAQuery(c *Ctx) {
+	const rule = "C01.R13"
+	c.Rule(rule, "an empty query string is forwarded: presence of the query, not its content, decides the '?'", 2)
+	pkg := "pkg/stream/http"
+	inj := c.F(pkg, "injectCtxVarFromProtocolHeaders")
+	build := c.F(pkg, "buildUrlFromCtxVar")
+	if inj == nil || build == nil {
+		c.Unresolved(rule, "http.injectCtxVarFromProtocolHeaders / buildUrlFromCtxVar")
+		return
+	}
+	qv, ok := pkgStringConstOf(inj, "pkg/types", "VarQueryString")
+	if !ok {
+		c.Unresolved(rule, "types.VarQueryString")
+		return
+	}
+	isVarCall := func(name string) func(cc *ssa.CallCommon) bool {
+		return func(cc *ssa.CallCommon) bool {
+			if !strings.HasSuffix(calleeName(cc), "variable."+name) || len(cc.Args) < 2 {
+				return false
+			}
+			s, ok := constStringVal(stripIface(cc.Args[1]))
+			return ok && s == qv
+		}
+	}
+	sets := callsIn(inj, false, isVarCall("SetString"))
+	if len(sets) == 0 {
+		c.Fail(rule, funcKey(inj)+":query-variable-set-when-present", inj.Pos(), "no variable.SetString(ctx, VarQueryString, ..) found")
+	}
+	for _, cs := range sets {
+		onlyNonEmpty := false
+		for _, g := range guardsAt(cs.Instr.Block()) {
+			b, ok := g.Cond.(*ssa.BinOp)
+			if !ok {
+				continue
+			}
+			if call, ok := b.X.(*ssa.Call); ok && methodName(call.Common()) == "len" {
+				if k, isK := constInt(b.Y); isK && k == 0 && ((b.Op == token.GTR && g.True) || (b.Op == token.NEQ && g.True) || (b.Op == token.EQL && !g.True) || (b.Op == token.LEQ && !g.True)) {
+					onlyNonEmpty = true
+				}
+			}
+		}
+		c.Check(rule, funcKey(inj)+":query-variable-set-when-present", cs.Instr.Pos(), !onlyNonEmpty,
+			"the query variable is not set for a non-empty query only",
+			"the query variable is set only when the query string is non-empty: a request target with an empty query (\"/path?\") is forwarded as \"/path\"")
+	}
+	gets := callsIn(build, false, isVarCall("GetString"))
+	if len(gets) != 1 {
+		c.Fail(rule, funcKey(build)+":question-mark-on-presence", build.Pos(), fmt.Sprintf("expected one variable.GetString(ctx, VarQueryString), found %d", len(gets)))
+		return
+	}
+	get := gets[0].Instr.(*ssa.Call)
+	n := 0
+	forEachInstr(build, false, func(_ *ssa.Function, in ssa.Instruction) {
+		bo, ok := in.(*ssa.BinOp)
+		if !ok || bo.Op != token.ADD {
+			return
+		}
+		if s, isK := constStringVal(bo.X); !isK || s != "?" {
+			return
+		}
+		n++
+		onValue := false
+		for _, g := range guardsAt(bo.Block()) {
+			b, ok := g.Cond.(*ssa.BinOp)
+			if !ok {
+				continue
+			}
+			for _, side := range []ssa.Value{b.X, b.Y} {
+				if ex, ok := side.(*ssa.Extract); ok && ex.Tuple == ssa.Value(get) && ex.Index == 0 {
+					onValue = true
+				}
+			}
+		}
+		c.Check(rule, funcKey(build)+":question-mark-on-presence", bo.Pos(), !onValue,
+			"the '?' is appended whatever the content of the query variable",
+			"the upstream URL gets its '?' only when the query variable is non-empty: an empty query that the request carried is dropped on the way to the upstream")
+	})
+	if n == 0 {
+		c.Fail(rule, funcKey(build)+":question-mark-on-presence", build.Pos(), "no \"?\" + query concatenation found")
+	}
+}
+
+// ---------------------------------------------------------------------------------------------------------------------
+// C02.R18 (S59): what an HTTP/1 upstream sends beyond the one response that was asked for answers no request. After a
+// response has been read the client loop looks at what is left in its reader and retires the connection (the path of
+// `Connection: close`) instead of keeping the bytes for the next request.
+func c02LeftoverUpstreamBytesRetireConnection(c *Ctx) {
+	const rule = "C02.R18"
+	c.Rule(rule, "bytes an HTTP/1 upstream sent beyond the response retire the connection instead of answering the next request", 1)
+	pkg := "pkg/stream/http"
+	fn := c.M(pkg, "clientStreamConnection", "serve")
+	if fn == nil {
+		c.Unresolved(rule, "clientStreamConnection.serve")
+		return
+	}
+	reads := callsIn(fn, false, func(cc *ssa.CallCommon) bool { return methodName(cc) == "Read" && len(cc.Args) == 2 })
+	goaway := callsIn(fn, false, calledAs("OnGoAway"))
+	if len(reads) == 0 || len(goaway) == 0 {
+		c.Fail(rule, funcKey(fn)+":leftover-retires-connection", fn.Pos(), "response.Read / OnGoAway not found in serve")
+		return
+	}
+	ok := false
+	for _, cs := range callsIn(fn, false, calledAs("Buffered")) {
+		// the result decides a branch from which OnGoAway is reachable, after the response was read
+		var conds []*ssa.If
+		seen := map[ssa.Value]bool{}
+		var uses func(v ssa.Value, d int)
+		uses = func(v ssa.Value, d int) {
+			if d > 6 || seen[v] {
+				return
+			}
+			seen[v] = true
+			for _, r := range refs(v) {
+				switch x := r.(type) {
+				case *ssa.If:
+					conds = append(conds, x)
+				case *ssa.BinOp:
+					uses(x, d+1)
+				case *ssa.Phi:
+					uses(x, d+1)
+				case *ssa.UnOp:
+					uses(x, d+1)
+				}
+			}
+		}
+		uses(cs.Instr.(ssa.Value), 0)
+		for _, ifi := range conds {
+			for _, g := range goaway {
+				if existsPath(fn, ifi, func(in ssa.Instruction) bool { return in == g.Instr }, nil) != nil {
+					for _, r := range reads {
+						if instrDominates(r.Instr, cs.Instr) {
+							ok = true
+						}
+					}
+				}
+			}
+		}
+	}
+	c.Check(rule, funcKey(fn)+":leftover-retires-connection", fn.Pos(), ok,
+		"after a response is read, bytes left in the reader lead to OnGoAway",
+		"after reading a response the client loop does not look at what is left in its reader: a second response the upstream sent unasked stays buffered and is delivered as the response of the next request on the pooled connection, and every later exchange on it is shifted by one")
+}
+
+// ---------------------------------------------------------------------------------------------------------------------
+// C11.O14 (S61): bytes.NewBuffer(make([]byte, n)) is a buffer that already holds n zero bytes; copying the buffered TLS
+// input into it hands the new process n zeroes followed by the data. A buffer that is written to must start empty.
+func c11NoZeroPrefixedHandOverBuffer(c *Ctx) {
+	const rule = "C11.O14"
+	c.Rule(rule, "a buffer filled with the bytes to hand over starts empty (no bytes.NewBuffer over a non-empty fresh slice that is then written)", 1)
+	n := 0
+	ord := ordCounter{}
+	for _, fn := range c.PkgFuncs("pkg/mtls/crypto/tls") {
+		for _, cs := range callsIn(fn, true, func(cc *ssa.CallCommon) bool { return calleeName(cc) == "bytes.NewBuffer" }) {
+			call, ok := cs.Instr.(*ssa.Call)
+			if !ok {
+				continue
+			}
+			written := false
+			for _, r := range refs(call) {
+				switch x := r.(type) {
+				case *ssa.Call:
+					m := methodName(x.Common())
+					if strings.HasPrefix(m, "Write") || m == "ReadFrom" {
+						written = true
+					}
+				case *ssa.MakeInterface:
+					for _, rr := range refs(x) {
+						if c2, ok := rr.(*ssa.Call); ok {
+							if n := calleeName(c2.Common()); (n == "io.Copy" || n == "io.CopyN" || n == "io.CopyBuffer") && len(c2.Common().Args) > 0 && c2.Common().Args[0] == ssa.Value(x) {
+								written = true
+							}
+						}
+					}
+				}
+			}
+			if !written {
+				continue
+			}
+			n++
+			nonEmpty := false
+			if mk, ok := call.Common().Args[0].(*ssa.MakeSlice); ok {
+				if k, isK := constInt(mk.Len); !isK || k != 0 {
+					nonEmpty = true
+				}
+			}
+			c.Check(rule, ord.next(cs.Fn, "buffer-starts-empty"), cs.Instr.Pos(), !nonEmpty,
+				"the buffer that is written to starts empty",
+				"bytes.NewBuffer is given a fresh slice of non-zero length and is then written to: the data follows that many zero bytes. For the TLS state handed over on hot upgrade the new process receives the buffered record bytes behind a run of zeroes and the migrated connection fails")
+		}
+	}
+	if n == 0 {
+		c.Fail(rule, "pkg/mtls/crypto/tls:buffer-starts-empty", token.NoPos, "no written bytes.NewBuffer found in pkg/mtls/crypto/tls")
+	}
+}
+
+// C11.O15 (S62): an address without a host (":2045") resolves to an empty IP, for which IsUnspecified is false, while the
+// inherited socket reports "[::]". Wherever ParseListenerConfig asks the configured IP whether it is the wildcard address
+// the empty IP must count as well.
+func c11HostlessListenerInheritsWildcard(c *Ctx) {
+	const rule = "C11.O15"
+	c.Rule(rule, "a listener configured without a host matches the inherited wildcard socket", 2)
+	pkg := "pkg/configmanager"
+	fn := c.F(pkg, "ParseListenerConfig")
+	if fn == nil {
+		c.Unresolved(rule, "configmanager.ParseListenerConfig")
+		return
+	}
+	lenGuarded := func(call *ssa.Call) bool {
+		recv := call.Common().Args[0]
+		for _, g := range guardsAt(call.Block()) {
+			b, ok := g.Cond.(*ssa.BinOp)
+			if !ok {
+				continue
+			}
+			lc, ok := b.X.(*ssa.Call)
+			if !ok || methodName(lc.Common()) != "len" || stripConv(lc.Common().Args[0]) != stripConv(recv) {
+				continue
+			}
+			if k, isK := constInt(b.Y); isK && k == 0 && ((b.Op == token.EQL && !g.True) || (b.Op == token.NEQ && g.True) || (b.Op == token.GTR && g.True)) {
+				return true
+			}
+		}
+		return false
+	}
+	isUnspec := func(cc *ssa.CallCommon) bool { return calleeName(cc) == "(net.IP).IsUnspecified" }
+	n := 0
+	ord := ordCounter{}
+	for _, src := range callsIn(fn, false, calledAs("GetAddrIp")) {
+		ip, ok := src.Instr.(*ssa.Call)
+		if !ok {
+			continue
+		}
+		for _, r := range refs(ip) {
+			call, ok := r.(*ssa.Call)
+			if !ok {
+				continue
+			}
+			if isUnspec(call.Common()) && call.Common().Args[0] == ssa.Value(ip) {
+				n++
+				c.Check(rule, ord.next(fn, "empty-ip-is-wildcard"), call.Pos(), lenGuarded(call),
+					"IsUnspecified is asked only for a non-empty configured IP",
+					"the configured listener IP is asked IsUnspecified() without an alternative for the empty IP of an address without host (\":2045\"): the inherited `[::]:2045` socket is not recognised as this listener, so on hot upgrade the new process tries to listen again on a port that is in use")
+				continue
+			}
+			// a helper of the package given the configured IP
+			h := call.Common().StaticCallee()
+			if h == nil || h.Pkg != fn.Pkg || len(h.Blocks) == 0 {
+				continue
+			}
+			pi := -1
+			for i, a := range call.Common().Args {
+				if a == ssa.Value(ip) {
+					pi = i
+				}
+			}
+			if pi < 0 {
+				continue
+			}
+			for _, hc := range callsIn(h, false, isUnspec) {
+				hcall := hc.Instr.(*ssa.Call)
+				if hcall.Common().Args[0] != ssa.Value(h.Params[pi]) {
+					continue
+				}
+				n++
+				c.Check(rule, ord.next(fn, "empty-ip-is-wildcard"), call.Pos(), lenGuarded(hcall),
+					"the helper asks IsUnspecified only for a non-empty IP",
+					"helper "+h.Name()+" asks the configured listener IP IsUnspecified() without an alternative for the empty IP of an address without host: the inherited wildcard socket is not recognised as this listener on hot upgrade")
+			}
+		}
+	}
+	if n == 0 {
+		c.Fail(rule, funcKey(fn)+":empty-ip-is-wildcard", fn.Pos(), "no wildcard test on the configured listener IP found")
+	}
+}
+
+// ---------------------------------------------------------------------------------------------------------------------
+// C18.W15 (S29): a HEADERS frame whose fragment is empty is valid (the block follows in CONTINUATION frames); only padding
+// that exceeds the payload is an error. The stream error guarded by `len(p) - padLength` must not fire at 0.
+func c18EmptyHeaderFragmentAccepted(c *Ctx) {
+	const rule = "C18.W15"
+	c.Rule(rule, "a HEADERS frame with an empty header block fragment is accepted, like the reference does", 1)
+	fn := c.F("pkg/module/http2", "parseHeadersFrame")
+	if fn == nil {
+		c.Unresolved(rule, "http2.parseHeadersFrame")
+		return
+	}
+	// the fragment: hf.headerFragBuf = p[:h]
+	var high ssa.Value
+	for _, st := range storesToField(fn, "HeadersFrame", "headerFragBuf", false) {
+		if sl, ok := st.Val.(*ssa.Slice); ok && sl.High != nil {
+			high = sl.High
+		}
+	}
+	if high == nil {
+		c.Fail(rule, funcKey(fn)+":empty-fragment-accepted", fn.Pos(), "no headerFragBuf = p[:h] found")
+		return
+	}
+	ba := newBA(c, fn)
+	h := ba.lin(high)
+	n := 0
+	for _, b := range fn.Blocks {
+		ifi, ok := b.Instrs[len(b.Instrs)-1].(*ssa.If)
+		if !ok || len(b.Succs) != 2 {
+			continue
+		}
+		for idx, pol := range []bool{true, false} {
+			succ := b.Succs[idx]
+			// the edge leads only to returns of a stream error
+			reach := reachableFrom(succ)
+			reach[succ] = true
+			any, only := false, true
+			for _, in := range instrsWhere(fn, isReturn) {
+				if !reach[in.Block()] {
+					continue
+				}
+				any = true
+				r := in.(*ssa.Return)
+				e := stripIface(r.Results[len(r.Results)-1])
+				call, isCall := e.(*ssa.Call)
+				if !isCall || methodName(call.Common()) != "streamError" {
+					only = false
+				}
+			}
+			if !any || !only {
+				continue
+			}
+			n++
+			facts := ba.guardFacts(Guard{Cond: ifi.Cond, True: pol, If: ifi})
+			// the refusal implies h <= -1
+			ok := ba.prove(linConst(-1).add(h, -1), facts)
+			c.Check(rule, funcKey(fn)+":empty-fragment-accepted", nearestPos(ifi), ok,
+				"the padding error fires only when the padding exceeds the payload (fragment length below 0)",
+				"parseHeadersFrame can answer a HEADERS frame whose fragment length is exactly 0 with a stream PROTOCOL_ERROR: a header block that starts in an empty HEADERS frame and continues in CONTINUATION frames, which the reference accepts, resets the stream")
+		}
+	}
+	if n == 0 {
+		c.Fail(rule, funcKey(fn)+":empty-fragment-accepted", fn.Pos(), "no padding check of the form len(p)-pad <op> const found")
+	}
+}
+
+// C18.W16 (S30): both connection types apply the peer's SETTINGS_HEADER_TABLE_SIZE to their HPACK encoder; an encoder
+// that keeps indexing into a larger table than the peer announced produces references the peer cannot resolve.
+func c18PeerHeaderTableSizeApplied(c *Ctx) {
+	const rule = "C18.W16"
+	c.Rule(rule, "the peer's SETTINGS_HEADER_TABLE_SIZE is applied to the HPACK encoder on both connection types", 2)
+	pkg := "pkg/module/http2"
+	for _, who := range [][2]string{{"MClientConn", "processSettings"}, {"serverConn", "processSetting"}} {
+		fn := c.M(pkg, who[0], who[1])
+		if fn == nil || fn.Pkg == nil {
+			c.Unresolved(rule, who[0]+"."+who[1])
+			continue
+		}
+		id, ok := pkgLocalConst(fn, "SettingHeaderTableSize")
+		if !ok {
+			c.Unresolved(rule, "http2.SettingHeaderTableSize")
+			return
+		}
+		applied := false
+		for f := range staticReach([]*ssa.Function{fn}, pkg) {
+			for _, cs := range callsIn(f, true, calledAs("SetMaxDynamicTableSize")) {
+				for _, g := range guardsAt(cs.Instr.Block()) {
+					if _, op, k, ok := cmpConst(g); ok && op == token.EQL && k == id {
+						applied = true
+					}
+				}
+			}
+		}
+		c.Check(rule, funcKey(fn)+":header-table-size-applied", fn.Pos(), applied,
+			"SETTINGS_HEADER_TABLE_SIZE reaches hpack.Encoder.SetMaxDynamicTableSize",
+			who[0]+" ignores the peer's SETTINGS_HEADER_TABLE_SIZE: its HPACK encoder keeps indexing into a table larger than the peer announced (a peer that announces 0 fails the second request with COMPRESSION_ERROR)")
+	}
+}
+
+// pkgLocalConst: integer constant `name` of fn's own package.
+func pkgLocalConst(fn *ssa.Function, name string) (int64, bool) {
+	if fn.Pkg == nil {
+		return 0, false
+	}
+	if k, ok := fn.Pkg.Pkg.Scope().Lookup(name).(*types.Const); ok {
+		if n, exact := constant.Int64Val(constant.ToInt(k.Val())); exact {
+			return n, true
+		}
+	}
+	return 0, false
+}
+
+// ---------------------------------------------------------------------------------------------------------------------
+// C10.RESET (S33): the stream table lock of an xprotocol connection is not held while a stream is reset: the reset ends in
+// the pool client's OnDestroyStream, which asks the connection for its number of active streams and takes the same lock
+// (read side) on the same goroutine; the streams behind the first one then keep their breaker slots and gauges for ever.
+func c10NoStreamCallbackUnderStreamTableLock(c *Ctx) {
+	const rule = "C10.RESET"
+	c.Rule(rule, "no stream is reset or destroyed while the connection's stream table lock is held", 1)
+	pkg := "pkg/stream/xprotocol"
+	n := 0
+	ord := ordCounter{}
+	for _, fn := range c.PkgFuncs(pkg) {
+		for _, cs := range callsIn(fn, false, func(cc *ssa.CallCommon) bool {
+			m := methodName(cc)
+			return m == "ResetStream" || m == "DestroyStream"
+		}) {
+			n++
+			lock := mayHold(cs.Instr, "clientMutex")
+			if lock == nil {
+				lock = mayHold(cs.Instr, "serverMutex")
+			}
+			at := ""
+			if lock != nil {
+				at = c.pos(nearestPos(lock))
+			}
+			c.Check(rule, ord.next(fn, "reset-outside-table-lock"), cs.Instr.Pos(), lock == nil,
+				"the stream is reset with the stream table lock released",
+				"a stream is reset while the connection's stream table lock (taken at "+at+") is held: the reset runs the stream's listeners, and a pool client in go-away state calls back into ActiveStreamsNum, which takes the same lock - the goroutine that delivers the close event deadlocks on itself after the first stream, the other streams are never reset and their requests-breaker slots and active gauges are never given back")
+		}
+	}
+	if n == 0 {
+		c.Fail(rule, pkg+":reset-outside-table-lock", token.NoPos, "no ResetStream/DestroyStream call found")
+	}
+}
+
+// ---------------------------------------------------------------------------------------------------------------------
+// C08.B11 (S26, known finding): MFramer.ReadFrame parses out of the connection's read buffer and drains a frame only on
+// success. An error it passes on from a frame parser or from readMetaFrame can be a StreamError, which costs the stream
+// only: the caller goes on with the connection, so the refused frame must have been consumed. Violated when a path from the
+// failing call to the return neither drains nor has established that the error is not a StreamError.
+func c08StreamErrorConsumesItsFrame(c *Ctx) {
+	const rule = "C08.B11"
+	c.Rule(rule, "a stream-level error of the HTTP/2 framer leaves its frame consumed (the connection goes on behind it)", 2)
+	fn := c.M("pkg/module/http2", "MFramer", "ReadFrame")
+	if fn == nil {
+		c.Unresolved(rule, "MFramer.ReadFrame")
+		return
+	}
+	isDrain := func(in ssa.Instruction) bool {
+		ci, ok := in.(ssa.CallInstruction)
+		return ok && methodName(ci.Common()) == "Drain"
+	}
+	n := 0
+	seenKey := map[string]bool{}
+	for _, in := range instrsWhere(fn, isReturn) {
+		ret := in.(*ssa.Return)
+		e := ret.Results[len(ret.Results)-1]
+		ex, ok := e.(*ssa.Extract)
+		if !ok {
+			continue
+		}
+		call, ok := ex.Tuple.(*ssa.Call)
+		if !ok {
+			continue
+		}
+		origin := methodName(call.Common())
+		if call.Common().StaticCallee() == nil && !call.Common().IsInvoke() {
+			origin = "frame-parser"
+		}
+		if origin == "readFrameHeader" {
+			continue // nothing of the frame has been looked at: need more data / header errors
+		}
+		key := funcKey(fn) + ":stream-error-consumed:" + origin
+		if seenKey[key] {
+			continue
+		}
+		seenKey[key] = true
+		n++
+		edgeOK := func(from, to *ssa.BasicBlock) bool {
+			// the false edge of `_, ok := err.(StreamError)`: not a stream error on this path
+			ifi, ok := from.Instrs[len(from.Instrs)-1].(*ssa.If)
+			if !ok || len(from.Succs) != 2 {
+				return true
+			}
+			if ok2, isEx := ifi.Cond.(*ssa.Extract); isEx && ok2.Index == 1 {
+				if ta, isTA := ok2.Tuple.(*ssa.TypeAssert); isTA && ta.X == ssa.Value(ex) && strings.HasSuffix(typeName(ta.AssertedType), "StreamError") {
+					return to != from.Succs[1] || from.Succs[0] == from.Succs[1]
+				}
+			}
+			return true
+		}
+		bad := existsPathEdges(fn, call, func(x ssa.Instruction) bool { return x == ssa.Instruction(ret) }, isDrain, edgeOK)
+		c.Check(rule, key, nearestPos(ret), bad == nil,
+			"an error passed on from "+origin+" is either shown not to be a StreamError or its frame has been drained",
+			"MFramer.ReadFrame passes on an error of "+origin+" that can be a StreamError without having drained the refused frame: the stream layer treats a stream error as non-fatal, the same bytes are parsed again on the next read event (a HEADERS block goes through the shared HPACK decoder again), no RST_STREAM is sent, no later frame of the connection is processed and the read buffer grows with every byte the peer sends")
+	}
+	if n == 0 {
+		c.Fail(rule, funcKey(fn)+":stream-error-consumed", fn.Pos(), "no error passed on from a parser call found in MFramer.ReadFrame")
 	}
 }
